@@ -19,11 +19,31 @@ Representation choices (all stated in DESIGN.md section 4):
 import itertools
 import z3
 
-_counter = itertools.count()
+class _Counter:
+    def __init__(self):
+        self.n = 0
+
+    def next(self):
+        self.n += 1
+        return self.n
+
+
+_counter = _Counter()
 
 
 def uid(prefix='v'):
-    return '{}!{}'.format(prefix, next(_counter))
+    return '{}!{}'.format(prefix, _counter.next())
+
+
+def counter_get():
+    return _counter.n
+
+
+def counter_set(n):
+    """Used when a statement is re-executed after a fork: the discarded attempt
+    and the retry then create identically named symbols, so the branch
+    condition recorded by the fork denotes the same term in the retry."""
+    _counter.n = n
 
 
 _sorts = {}
@@ -120,6 +140,16 @@ class LArr:
         if isinstance(i, int):
             i = z3.IntVal(i)
         return Arr(self.alen(i), lambda j, i=i: self.at(i, j), self.k)
+
+
+class FlatList:
+    """A Python list of arrays that the code only appends to and finally
+    concatenates: abstracted exactly by (number of arrays, concatenation)."""
+    __slots__ = ('cnt', 'flat')
+
+    def __init__(self, cnt, flat):
+        self.cnt = cnt if not isinstance(cnt, int) else z3.IntVal(cnt)
+        self.flat = flat
 
 
 class SList:
